@@ -361,6 +361,15 @@ func checkRing(u universe, rc ringCase, n, idx int, rep *ev.Report, now time.Tim
 	for _, rf := range u.rfs {
 		for _, za := range []bool{false, true} {
 			r := rs.get(rf, za)
+			// the client first sees the same instances (same tokens and zones) all ACTIVE with a fresh heartbeat, then
+			// the ring under test: when only states and heartbeats differ the client keeps its token index — answers
+			// must be those of the current content all the same
+			pre := rc.desc(now)
+			for id, in := range pre.Ingesters {
+				in.State, in.Timestamp = ring.ACTIVE, now.Unix()
+				pre.Ingesters[id] = in
+			}
+			r.VerifUpdateRingState(pre)
 			r.VerifUpdateRingState(rc.desc(now))
 			for _, o := range ops {
 				for _, key := range keys {
